@@ -62,6 +62,7 @@ XOR = {
     ("script", "rerun"): ("file", "id", ["--id", "3"], ["--db", "/var/tmp/x.db"]),   # "requires a database connection"
 }
 SRC_ORDER = ["cli", "env", "file"]
+SYNTH = ("synthetic",)
 
 
 def opt_flag(o: L.Opt) -> str:
@@ -196,11 +197,17 @@ _W = {}
 
 
 def _worker_state():
+    if "sb" in _W and _W.get("pid") != os.getpid():
+        _W.clear()  # forked worker: its own gallia.toml, never the parent's
     if "sb" not in _W:
+        _W["pid"] = os.getpid()
         setup_repo_import()
         L.ready()
         _W["sb"] = L.Sandbox()
         _W["cmds"] = {tuple(p): c for p, c in L.commands()}
+        import c18_synth
+
+        _W["cmds"][SYNTH] = c18_synth.Synth
         import atexit
 
         atexit.register(_W["sb"].close)
@@ -266,7 +273,13 @@ def reload_config(cmd, cfg) -> dict:
 
 
 def _run_chunk(chunk):
-    return [real_case(c) for c in chunk]
+    try:
+        return [real_case(c) for c in chunk]
+    finally:
+        st = _W
+        if "sb" in st and st.get("pid") == os.getpid():
+            st["sb"].close()  # pool workers leave through os._exit: no atexit
+            st.clear()
 
 
 def run_real(ctx, cases):
@@ -305,6 +318,9 @@ def run(ctx):
                 "provider besides the default gives a value, or a required option is left without any")
     cmds = L.commands()
     ctx.notes["commands"] = len(cmds)
+    import c18_synth
+
+    cmds = cmds + [(SYNTH, c18_synth.Synth)]
     plans = [Plan(p, c, random.Random(f"base:{' '.join(p)}")) for p, c in cmds]
     st = _worker_state()
     try:
@@ -635,9 +651,9 @@ def check_matrix(ctx, plans, rng):
     ctx.notes["kinds_not_modelled"] = dict(skipped_kinds)
     if ctx.quick and not ctx.widened:
         # quick tier: every (option, combination) cell of one command in four plus a seeded sample of the rest
-        budget = 4200
+        budget = 5000
         if len(cases) > budget:
-            keep_cmds = {tuple(p.path) for i, p in enumerate(plans) if (i + ctx.seed) % 4 == 0}
+            keep_cmds = {tuple(p.path) for i, p in enumerate(plans) if (i + ctx.seed) % 4 == 0} | {SYNTH}
             first = [c for c in cases if tuple(c["cmd"]) in keep_cmds]
             rest = [c for c in cases if tuple(c["cmd"]) not in keep_cmds]
             rng.shuffle(rest)
@@ -648,7 +664,9 @@ def check_matrix(ctx, plans, rng):
     ctx.exhaustive_parts.append(
         f"provider matrix: {n_cells} distinct (command, option, provider combination) cells" +
         ("" if ctx.quick and not ctx.widened else " = every command x every visible option x every combination of its providers (valid), "
-         "plus the invalid-winner / invalid-loser combinations and bare const flags") + f", {len(cases)} cases")
+         "plus the invalid-winner / invalid-loser combinations and bare const flags") + f", {len(cases)} cases; includes a synthetic "
+        "command (harness/c18_synth.py) with a required and a defaulted option of every modelled kind, so that all 16 combinations "
+        "of {CLI, env, file, default} are reached for every kind")
 
 
 def judge(ctx, plans, cases, reals, label):
@@ -689,7 +707,7 @@ def judge(ctx, plans, cases, reals, label):
             good = impl[0] == "rej" and impl[1:] == [m[1]] and _names_option(real, o)
             mo_show = mo
         elif m[0] == "missing":
-            good = impl[0] == "missing" and opt_flag(o) in impl[1].replace(",", " ").split() or (impl[0] == "missing" and o.positional)
+            good = impl[0] == "missing" and (opt_flag(o) in impl[1].replace(",", " ").replace("/", " ").split() or o.positional)
             mo_show = mo
         else:
             mo_show = mo
@@ -774,12 +792,12 @@ def report(ctx, plan, o, case, real, impl, m, mo_show, label):
         if case["dflt"] is not None:
             alts["default"] = case["dflt"]
         got = next((s for s, v in alts.items() if v == impl[1]), "other-value")
-        if got == "other-value" or (m[0] == "ok" and got == m[1]):
+        if m[0] == "ok" and (got == "other-value" or got == m[1]):
             violated = False  # right provider (or none of them): the value codec differs -> tie, not the property
+        # m[0] == "rej": a value the validators must refuse was accepted (as whatever) -> "ignored instead of rejected"
     elif impl[0] == "rej":
+        # a value from the valid pools (the property's quantifier) that the parser refuses is a failing input as well
         got = "rejected-naming-" + "+".join(impl[1:])
-        if m[0] == "ok":
-            violated = False if impl[1:] == [m[1]] else True
     elif impl[0] == "missing":
         got = "missing"
     elif impl[0] == "raise":
@@ -803,7 +821,7 @@ def check_tree(ctx, plans, rng):
     tree = load_commands()
     n = ctx.pick(60, 600)
     cases = []
-    usable = [p for p in plans if not p.unusable]
+    usable = [p for p in plans if not p.unusable and p.path != SYNTH]
     for _ in range(n):
         plan = rng.choice(usable)
         o = rng.choice([o for o in plan.visible if o.kind.name != UNMODELLED and not o.positional])
